@@ -191,8 +191,8 @@ class Driver:
                 m.del_atom(arg)
                 if target is not None:
                     mod.delete(target)
-                else:
-                    return self.v(f"del_atom:by-{how}:nonexistent-target-accepted", arg=repr(arg)[:40])
+                # a target that does not exist: raising is what the code does today; silently doing nothing would also
+                # satisfy the statement, so only "nothing changed" is required (the inspection below compares with the model)
             elif kind == "connect":
                 a, b = mod.resolve(op[1]), mod.resolve(op[2])
                 expect_raise = a is None or b is None
